@@ -202,6 +202,16 @@ func init() {
 	models["(*strings.Builder).Grow"] = modelBuilderGrow
 	registerSyncModels()
 	registerTimeModels()
+	// package-level logging of the module under test: diagnostics only, empty bodies
+	prefixModels = append(prefixModels, prefixModel{prefix: "github.com/arloliu/go-secs/v2/logger.", pick: func(fn *ssa.Function, name string) interceptFn {
+		switch fn.Name() {
+		case "Debug", "Info", "Warn", "Error", "Debugf", "Infof", "Warnf", "Errorf":
+			if fn.Signature.Recv() == nil {
+				return noop
+			}
+		}
+		return nil
+	}})
 }
 
 func identity(m *Machine, _ *frame, _ *ssa.Function, a []value) value { return a[0] }
